@@ -56,6 +56,7 @@ pub struct World {
     pub cold_reads: Vec<(u8, Id, bool)>, // (ft, id, was warm)
     pub warm_calls: Vec<(u8, Id)>,
     pub normalise_config_id: bool,
+    pub fail_at: Option<usize>, // e2e: the n-th inner mutating call (1-based) fails without effect
 }
 
 impl World {
@@ -158,7 +159,7 @@ impl WriteBackend for MemBe {
             v.extend_from_slice(b);
         }
         let data = Bytes::from(v);
-        let o = w.outcomes.pop_front().unwrap_or(0);
+        let o = if w.fail_at == Some(w.log.len() + 1) { 1 } else { w.outcomes.pop_front().unwrap_or(0) };
         let effect = o != 1;
         if effect {
             let _ = w.maps[self.idx()].insert(k, data.clone());
@@ -173,7 +174,7 @@ impl WriteBackend for MemBe {
     fn remove(&self, tpe: FileType, id: &Id, cacheable: bool) -> RusticResult<()> {
         let mut w = self.w.lock().unwrap();
         let k = self.key(&w, tpe, id);
-        let o = w.outcomes.pop_front().unwrap_or(0);
+        let o = if w.fail_at == Some(w.log.len() + 1) { 1 } else { w.outcomes.pop_front().unwrap_or(0) };
         let present = w.maps[self.idx()].contains_key(&k);
         let effect = present && o != 1;
         if effect {
@@ -259,7 +260,7 @@ fn ops_case(line: &str) -> String {
 }
 
 // ------------------------------------------------------------------------------ e2e
-// Case line: `seed rejects nsteps step* dmg_p dmg_cfg trunc`
+// Case line: `seed rejects nsteps step* dmg_p dmg_cfg trunc fail_at`
 //   rejects: 1 = the cold store rejects reads of files that were not warmed up first
 //   step: 0 v   backup of source variant v
 //         1 k   forget the k-th live snapshot (mod count)
@@ -269,6 +270,7 @@ fn ops_case(line: &str) -> String {
 //         5     restore the latest snapshot and compare with its source
 //         6     repair index --read-all
 //   dmg_p: per-mille probability with which each hot key/snapshot/index/pack file is removed before the repair
+//   fail_at: n > 0: the n-th inner mutating call of the hot/cold run fails without effect (0 = no fault)
 //   dmg_cfg: 1 = the hot config is removed too;  trunc: 1 = one remaining hot file is cut short (incomplete)
 // The history is run on hot+cold (MemBe pair, every inner mutating call logged) and on a single MemBe store.
 // Output: one JSON object per case.
@@ -513,6 +515,7 @@ fn e2e_case(line: &str) -> String {
         steps.push(s);
     }
     let (dmg_p, dmg_cfg, trunc) = (t.u(), t.u() == 1, t.u() == 1);
+    let fail_at = t.u() as usize;
     let tmp = tempfile::tempdir().unwrap();
     let mut out = serde_json::Map::new();
     let mut hc = new_env(true, rejects);
@@ -525,6 +528,9 @@ fn e2e_case(line: &str) -> String {
         if let Ok(r) = r {
             e.creds = Credentials::Masterkey(r.key());
         }
+    }
+    if fail_at > 0 {
+        hc.w.lock().unwrap().fail_at = Some(fail_at);
     }
     let mut marks = vec![];
     for s in &steps {
@@ -546,6 +552,7 @@ fn e2e_case(line: &str) -> String {
         let _ = out.insert("warm_up_calls".into(), w.warm_calls.len().into());
     }
     // ---- damage the hot store, then repair
+    hc.w.lock().unwrap().fail_at = None;
     let mut r = SplitMix(seed ^ 0xC16);
     let hot_be = hc.bes.repo_hot().unwrap();
     let hot_files: Vec<(u8, Id)> = hc.w.lock().unwrap().maps[0].keys().copied().collect();
@@ -557,7 +564,8 @@ fn e2e_case(line: &str) -> String {
         if kill {
             hot_be.remove(FTS[*ft as usize], id, true).unwrap();
             removed += 1;
-        } else if *ft != 0 && *ft != 2 {
+        } else if *ft != 0 && *ft != 2 && cold_before.contains_key(&(*ft, *id)) {
+            // candidates for truncation: hot copies of files the cold store holds
             kept.push((*ft, *id));
         }
     }
